@@ -163,6 +163,21 @@ Theorem C17_total_refuted_implicit_nt_id :
 Proof. exact int_nt_id_refuted. Qed.
 Print Assumptions C17_total_refuted_implicit_nt_id.
 
+(** rule level: [conjoin_rules] returns on well-formed conjoinable rules when nt_map covers the
+    labels involved, no nonterminal edge of rule 1 has an implicit id and no terminal-edge id is shared *)
+Theorem C17_rule_total :
+  forall r1 r2 m,
+    wf_rule r1 -> wf_rule r2 -> conjoinable_model r1 r2 = true ->
+    (exists L, nt_get m (r_lhs r1, r_lhs r2) = Some L /\ el_term L = false /\
+               el_type L = el_type (r_lhs r1)) ->
+    (forall e1 e2, In e1 (nt_edges (r_rhs r1)) -> In e2 (nt_edges (r_rhs r2)) ->
+       exists l, nt_get m (e_lab e1, e_lab e2) = Some l /\ el_type l = el_type (e_lab e1)) ->
+    (forall e, In e (nt_edges (r_rhs r1)) -> is_int_id (e_id e) = false) ->
+    shares_terminal_id r1 r2 = false ->
+    exists r, conjoin_rules_model r1 r2 m = Ok r.
+Proof. exact conjoin_rules_total. Qed.
+Print Assumptions C17_rule_total.
+
 (** under the guard [ids_ok] (no conjoinable pair shares a terminal-edge id or has a nonterminal
     edge with an implicit id) and without a terminal conflict, [conjoin_hrgs] returns *)
 Theorem C17_total :
